@@ -85,9 +85,13 @@ def handle (op : String) (a r : Json) : Except String Reply := do
     let script ← (← getArr a "script").mapM getDgram
     let closeEnd := (getBool a "close_end").toOption.getD false
     let B : Backend := { cost := cost, nodeCost := nodeCost, allowed := allowed }
-    let sh : Shared := { self := self, connections := conns.eraseDups }
-    let m := runModel guardsOfFacts B sh script closeEnd
-    let spec := runModel allGuards B sh script closeEnd
+    let pre ← ((getArr a "pre").toOption.getD []).mapM getDgram
+    let sh0 : Shared := { self := self, connections := conns.eraseDups }
+    -- an earlier session of the same backend: its effect on the node is the connection it registered — the backend's
+    -- configuration is not something a session changes
+    let shOf (G : Guards) : Shared := (runSess G B sh0 {} pre).1
+    let m := runModel guardsOfFacts B (shOf guardsOfFacts) script closeEnd
+    let spec := runModel allGuards B (shOf allGuards) script closeEnd
     -- property predicates on the implementation's observation
     let crashed := (optField r "fatal").isSome || (optField r "hang").isSome || (optField r "panic").isSome
     let outs := ((r.getObjVal? "ok").bind fun o => getStrList o "outs").toOption.getD []
